@@ -2,7 +2,7 @@
 (***************************************************************************)
 (* Model instances of FormatLab for C04.                                    *)
 (*                                                                         *)
-(* Trees (grown entry by entry, see FormatLab!Grow) are all plain-data dicts of bounded WEIGHT: a core leaf, an empty  *)
+(* Trees are all plain-data dicts of bounded WEIGHT: a core leaf, an empty  *)
 (* list and an empty dict weigh 1, an exotic leaf weighs 2, a container     *)
 (* weighs 1 plus its children.  Budget is the weight allowed below the root *)
 (* (Budget = 4: "up to 5 nodes").  The top level uses RootKeys, nested maps *)
@@ -10,7 +10,8 @@
 (***************************************************************************)
 EXTENDS FormatLab, Json
 
-CONSTANTS MaxDepth    \* nesting depth of containers below the root
+CONSTANTS Budget,     \* weight allowed below the root dict
+          MaxDepth    \* nesting depth of containers below the root
 
 S(x) == StrV(x)
 K1     == <<"k","1">>
@@ -81,13 +82,18 @@ MCFixedTrees ==
       DictV(<< <<S(<<"_">>), DictV(<< <<S(<<"=">>), IntV(1)>> >>)>> >>),
       DictV(<< <<S(<<"x","m","l">>), FloatH(-1)>>, <<S(<<"A">>), S(<<"a">>)>>, <<S(<<"a">>), S(<<"A">>)>> >>) }
 
-\* all trees of weight <= Budget below the root, and the fixed ones
-MCTrees ==
-    LET rt == SeqTabs(TabAt(0), Budget)
-    IN  CupFold(LAMBDA m : {DictV(Zip(ks, s)) : ks \in KeySeqs(RootKeys, m),
-                                                s \in CupFold(LAMBDA w : rt[m + 1][w], m, Budget)},
-                0, Budget)
-        \cup MCFixedTrees
+\* All trees of weight <= Budget below the root, as initial states.  The trees are enumerated
+\* by nested quantifiers (entry by entry, keys in the order of RootKeys) instead of being
+\* collected into one constant set: TLC builds large sets with quadratically many comparisons.
+RECURSIVE TreeFrom(_, _, _, _)
+TreeFrom(T, kv, nk, rem) ==
+    \/ lab = Session(DictV(kv))
+    \/ \E i \in nk..Len(RootKeys) : \E w \in 1..rem : \E v \in T[w] :
+          TreeFrom(T, Append(kv, <<RootKeys[i], v>>), i + 1, rem - w)
+MCInit ==
+    \/ LET T == TLCEval(TabAt(0)) IN TreeFrom(T, <<>>, 1, Budget)
+    \/ \E t \in MCFixedTrees : lab = Session(t)
+    \/ \E e \in Elems : lab = ElemSession(e)
 
 \* the plan: every format, every option value, and two loads with the wrong root tag
 O == DefaultOpts
